@@ -277,3 +277,35 @@ func zzH_C13_handshake() {
 		verifReach("bad-cfg")
 	}
 }
+
+
+// repeated transfers through one relay: a reader that saw the previous transfer's end marker performs its (by now stale)
+// reset to standby while the next handshake is already under way with chunks parked and more arriving — the reset
+// must not disturb the handshake: everything is still delivered in order after the flush
+func zzH_C13_staleReset() {
+	r := zzRelay13()
+	r.relayStatus.Store(kRelayHandshaking)
+	want := []byte{}
+	next := byte('a')
+	for i := 0; i < verifBound("PARKED"); i++ {
+		r.stdoutBuffer.addBuffer([]byte{next})
+		want = append(want, next)
+		next++
+	}
+	var chunks [][]byte
+	for i := 0; i < verifBound("ARRIVING"); i++ {
+		chunks = append(chunks, []byte{next})
+		want = append(want, next)
+		next++
+	}
+	r.serverOut = &zzChunks13{chunks: chunks}
+	go r.wrapOutput()
+	go r.resetToStandby(kRelayTransferring) // the late reader of the previous transfer
+	verifQuiesce()
+	verifAssert(r.relayStatus.Load() == kRelayHandshaking, "a stale reset of the previous transfer changed the state of the running handshake")
+	r.flushHandshakeBuffer(verifNondetBool())
+	verifQuiesce()
+	zzExpect13(zzDrain13(r.osStdoutChan), want, "to client")
+	verifAssert(len(r.osStdinChan) == 0, "server bytes delivered to the server side")
+	verifReach("stale-reset")
+}
